@@ -59,7 +59,7 @@ theorem autoTime_wf (a : AtArgs) (now : Instant) (cfg : Config) (hh : now.h < 24
 chain takes the first eligible creator. -/
 theorem fallback_only_without_today (r : Reconciler) (x : Option Reconciler) :
     firstCreator [some r, x] = some r ∧ firstCreator [none, x] = x := by
-  simp [firstCreator, List.findSome?]
+  cases x <;> simp [firstCreator, List.findSome?]
 
 /-- Former D9/D10 witnesses (fixed in /repo): 23:50 rounded to 30m is `0:00>`; relative to
 yesterday's record that is not representable — an error, not a crash. -/
